@@ -105,6 +105,14 @@ def search(pid, record):
             return {"found": True, "scenario": "server-hostile", "kind": "process-died", "props": "C10",
                     "observed": "the server process exited with %d: %s" % (h.returncode, h.stderr[-400:]), "expected": "the server keeps running"}
         return {"found": False}
+    if pid == "C06" and record.get("file", "").endswith("client.rs"):
+        h = _run(binary, ["client-search"], timeout=300)
+        for line in h.stdout.splitlines():
+            if line.startswith("{") and json.loads(line).get("found"):
+                w = json.loads(line)
+                w["scenario"] = "client-search"
+                return w
+        return {"found": False}
     if pid == "C06":
         for seed in range(4):
             p = _run(binary, ["server-search", str(seed)], timeout=300)
@@ -224,6 +232,10 @@ def execute(w):
         return (not found), p.stdout.strip()[-700:]
     if w.get("scenario") == "server-shutdown":
         p = _run(binary, ["server-shutdown", str(w.get("seed", "1"))], timeout=300)
+        found = p.returncode != 0 or any(l.startswith("{") and json.loads(l).get("found") for l in p.stdout.splitlines())
+        return (not found), p.stdout.strip()[-700:]
+    if w.get("scenario") == "client-search":
+        p = _run(binary, ["client-search"], timeout=300)
         found = p.returncode != 0 or any(l.startswith("{") and json.loads(l).get("found") for l in p.stdout.splitlines())
         return (not found), p.stdout.strip()[-700:]
     if w.get("scenario") == "store-background":
